@@ -1,7 +1,8 @@
 (* C07 driver.  Case line:
      sf <s|c> r=<req>/<req>/... sched=<act>,<act>,...
-   req   = <events>;<stop code|->;<pad>;<hsize>;<body hex|->
+   req   = <events>;<stop code|->;<pad>;<hsize>;<body hex|->;<size of the trailer section we send|->
    event = h | hm<j> | ho | hq | hp<n> | dq<total> | d<total>:<hex|-> | m<hex> | F | R<code>      (dot separated)
+           t | tm<j> | to | tq | tp<n>   the same kinds for a trailer section
    act   = o<i> | e<i> | s<i> | p<i> | pd | gS<v> | gG
    Output: model observation | specification (allowances per request, see lib/props/c07.py) *)
 let nat_of_string s = nat_of_int (int_of_string s)
@@ -14,6 +15,11 @@ let parse_event (t : string) : ev =
   else if t = "hq" then EHeaders HBadQpack
   else if starts t "hm" then EHeaders HMalformed
   else if starts t "hp" then EPartial
+  else if t = "t" then EHeaders HOk
+  else if t = "to" then EHeaders HOversized
+  else if t = "tq" then EHeaders HBadQpack
+  else if starts t "tm" then EHeaders HMalformed
+  else if starts t "tp" then EPartial
   else if starts t "dq" then EPartial
   else if t = "F" then EFin
   else if starts t "R" then EReset (n_of_string (sub_from t 1))
@@ -24,14 +30,19 @@ let parse_event (t : string) : ev =
     | _ -> failwith ("bad data event " ^ t) end
   else failwith ("bad event " ^ t)
 
-type rq = { script : ev list; stop : n option; hsize : n; body : n list }
+type rq = { script : ev list; stop : n option; hsize : n; body : n list; trlz : n option }
 
 let parse_req (s : string) : rq =
   match String.split_on_char ';' s with
-  | [evs; stop; _pad; z; body] ->
-      { script = (if evs = "-" then [] else List.map parse_event (String.split_on_char '.' evs));
+  | [evs; stop; _pad; z; body; tz] ->
+      { script = (if evs = "-" then [] else
+                  (* a trailer-shaped section in FIRST position is a message header without its pseudo-header fields *)
+                  List.mapi (fun i t -> match parse_event t with
+                                        | EHeaders HOk when i = 0 && starts t "t" -> EHeaders HMalformed
+                                        | e -> e) (String.split_on_char '.' evs));
         stop = (if stop = "-" then None else Some (n_of_string stop));
-        hsize = n_of_string z; body = bytes_of_hex body }
+        hsize = n_of_string z; body = bytes_of_hex body;
+        trlz = (if tz = "-" then None else Some (n_of_string tz)) }
   | _ -> failwith ("bad request " ^ s)
 
 let parse_action (reqs : rq array) (t : string) : action =
@@ -54,6 +65,7 @@ let touches (j : int) (t : string) : bool =
 let api_name = function
   | AResolve -> "resolve" | ARecv -> "recv" | ASendResp -> "sendresp" | ASendData -> "senddata"
   | AFinish -> "finish" | ASendReq -> "sendreq" | ARecvResp -> "recvresp"
+  | ARecvTrl -> "recvtrl" | ASendTrl -> "sendtrl"
 let serr_str = function
   | SStream c -> "s:" ^ string_of_n c ^ ":StreamError"
   | SRemoteTerminate c -> "s:" ^ string_of_n c ^ ":RemoteTerminate"
@@ -68,10 +80,10 @@ let res_str = function
   | Some (RPanic s) -> "panic:" ^ string_of_n s
   | Some RUnmodelled -> "unmodelled"
 let dotted f l = if l = [] then "-" else String.concat "." (List.map f l)
-let witem_str = function WHeaders t -> "h" ^ string_of_n t | WData b -> "d" ^ hex_of_bytes b
+let witem_str = function WHeaders t -> "h" ^ string_of_n t | WData b -> "d" ^ hex_of_bytes b | WTrailers -> "t"
 let call_str = function CReset c -> "R" ^ string_of_n c | CStop c -> "S" ^ string_of_n c | CFin -> "F"
 let req_str (r : req) : string =
-  res_str r.res ^ ";d=" ^ hex_of_bytes r.acc ^ ";t=" ^ dotted witem_str r.tx ^ ";c=" ^ dotted call_str r.calls
+ res_str r.res ^ ";d=" ^ hex_of_bytes r.acc ^ ";tr=" ^ (if r.gottrl then "1" else "0") ^ ";t=" ^ dotted witem_str r.tx ^ ";c=" ^ dotted call_str r.calls
 let conn_str (s : shared) : string =
   "conn=" ^ (match s.drv with None -> "ok" | Some c -> string_of_n c) ^ ";close=" ^ dotted string_of_n s.closes
 
@@ -79,7 +91,7 @@ let class_str = function
   | KStreamError -> "StreamError" | KRemoteTerminate -> "RemoteTerminate"
   | KHeaderTooBig -> "HeaderTooBig" | KRemoteClosing -> "RemoteClosing"
 let allow_str = function
-  | AOk (b, tx) -> "ok:" ^ hex_of_bytes b ^ ":" ^ dotted witem_str tx
+  | AOk (b, tx, trl) -> "ok:" ^ hex_of_bytes b ^ ":" ^ dotted witem_str tx ^ ":" ^ (if trl then "1" else "0")
   | AErr (k, code, aborts, upto, tx) ->
       "err:" ^ class_str k ^ ":" ^ (match code with Some c -> string_of_n c | None -> "-") ^ ":"
       ^ dotted call_str aborts ^ ":" ^ hex_of_bytes upto ^ ":"
@@ -93,7 +105,7 @@ let handle ws = match ws with
       let reqs = Array.of_list (List.map parse_req (String.split_on_char '/' (sub_from rs 2))) in
       let toks = let s = sub_from sc 6 in if s = "-" then [] else String.split_on_char ',' s in
       let w0 = { sh = sh0;
-                 reqs = List.map (fun q -> init_req { c_role = role; c_hsize = q.hsize; c_body = q.body } q.script)
+                 reqs = List.map (fun q -> init_req { c_role = role; c_hsize = q.hsize; c_body = q.body; c_trl = q.trlz } q.script)
                           (Array.to_list reqs) } in
       let acts = List.map (parse_action reqs) toks in
       let w = run acts w0 in
@@ -114,7 +126,7 @@ let handle ws = match ws with
       let inclass = ref true in
       let swords = List.mapi (fun i q ->
           let stop = if List.mem ("s" ^ string_of_int i) toks then q.stop else None in
-          let c = { c_role = role; c_hsize = q.hsize; c_body = q.body } in
+          let c = { c_role = role; c_hsize = q.hsize; c_body = q.body; c_trl = q.trlz } in
           match classify c { e_stop = stop; e_limit = limit; e_goaway = goaway } q.script with
           | Some l -> "r" ^ string_of_int i ^ "~" ^ String.concat "|" (List.map allow_str l)
           | None -> inclass := false; "r" ^ string_of_int i ^ "~*") (Array.to_list reqs) in
